@@ -7,6 +7,8 @@ package main
 // workload runs, so the C01 and C18 checks run them too (oracle only: the case lines belong to the
 // other property's Lean model). A failure keeps the signature of the property whose oracle fired.
 
+import "github.com/sarchlab/mgpusim/v4/amd/insts"
+
 func init() {
 	register("C18", func(r *Run, rng *Rng, _ string) { crossWGSplit(r, rng, 250, 2500); crossDistribute(r, rng, 60, 800) })
 	register("C01", func(r *Run, rng *Rng, _ string) { crossWGSplit(r, rng, 250, 2500) })
@@ -115,5 +117,33 @@ func init() {
 		for i := 0; i < 60; i++ {
 			c11CpScenario(r, rng)
 		}
+	})
+}
+
+// C03 (memory effects of FLAT/SMEM instructions conform to the ISA) goes through the emulator's
+// storage accessor: its scenarios across page-table changes are oracles of C03 too.
+// C06 (inactive lanes keep their registers and make no memory access) also has to hold in the timing
+// compute unit, where loads return later and stores are merged per cache line: C02's real-CU
+// scenarios (EXEC changed while a load is in flight; coalesced stores with duplicate addresses) are
+// oracles of C06 too.
+func init() {
+	register("C03", func(r *Run, rng *Rng, _ string) {
+		r.OracleOnly = true
+		defer func() { r.OracleOnly = false }()
+		accessorRuns(r, rng, 60)
+		copyCasesAccessor(r, rng, 120)
+	})
+	register("C06", func(r *Run, rng *Rng, _ string) {
+		r.OracleOnly = true
+		defer func() { r.OracleOnly = false }()
+		dis := insts.NewDisassembler()
+		n := 60
+		if r.Tier == "thorough" {
+			n = 600
+		}
+		for k := 0; k < n; k++ {
+			c02dRunCase(r, rng, dis, c02dGenCase(rng))
+		}
+		c02dRunStores(r, rng, n)
 	})
 }
